@@ -342,6 +342,9 @@ func (s *OS[T, P]) stateInvariantsV(a spec.Assignment, o T, preds Pred) (key, ex
 			}
 		}
 		if preds&PredForeign != 0 {
+			if own, oerr := s.I.Parse(vec); oerr != nil || own == nil {
+				return "own-parser-rejects-Vector", "Vector() of v" + ver.Name + " accepted by the v" + ver.Name + " parser", fmt.Sprintf("%q: %v", vec, oerr), vec
+			}
 			for fi, f := range s.Foreign {
 				if f(vec) {
 					return fmt.Sprintf("foreign-accept/%d", fi), "Vector() of v" + ver.Name + " rejected by other versions' parsers", "accepted: " + vec, vec
